@@ -23,17 +23,18 @@ def unquoteTreeItems : List Val → List Val
   | v :: rest => unquoteTree v :: unquoteTreeItems rest
 end
 
-/-- The value part `=…` of a line is left alone by `unquote`. -/
-def unquoteFixes (v : Str) : Bool := unquoteLine ('=' :: v) == '=' :: v
+/-- The value part of a line is left alone by `unquote`. -/
+def unquoteFixes (v : Str) : Bool := unquoteValue v == v
 
 mutual
 /-- Local clauses for `unquote`: no `=` in field names; type names are left alone by the pass; on a
 scalar the pass does what the scalar's *real kind* says (`reprKindAgrees` for quotes: a `str` repr is
-delimited by quotes, any other repr is left alone — false for a bytes repr containing `='`). -/
+delimited by quotes, any other repr does not both start and end with a quote). Since 0ac09ad the pass
+is anchored on the key, so quotes *inside* a bytes repr no longer matter. -/
 def wfUnquote : Val → Bool
   | .node ty _ _ _ fs => unquoteFixes ty && wfUnquoteFields fs
   | .list _ xs => wfUnquoteItems xs
-  | .scalar r k => unquoteLine ('=' :: r) == '=' :: unquoteScalar r k
+  | .scalar r k => unquoteValue r == unquoteScalar r k
 def wfUnquoteFields : List (Str × Val) → Bool
   | [] => true
   | (n, v) :: rest => !n.contains '=' && wfUnquote v && wfUnquoteFields rest
@@ -68,12 +69,13 @@ def kindMark : Str := cs!"/kind="
 
 mutual
 /-- Local clauses for `suppress_kinds`: field names contain neither `=` nor `/`; type names contain no
-`=`; scalar reprs do not contain `/kind=`; a scalar field called `kind` is the last field of its node
-(as in Python's `Constant(value, kind)`), so that dropping it renumbers nothing. -/
+`=`; a scalar field called `kind` is the last field of its node (as in Python's
+`Constant(value, kind)`), so that dropping it renumbers nothing. Since 83ae3f3 the pass looks at the
+key only: what a scalar *value* contains no longer matters. -/
 def wfKinds : Val → Bool
   | .node ty _ _ _ fs => !ty.contains '=' && wfKindsFields fs
   | .list _ xs => wfKindsItems xs
-  | .scalar r _ => !hasInfix kindMark r
+  | .scalar _ _ => true
 def wfKindsFields : List (Str × Val) → Bool
   | [] => true
   | (n, v) :: rest =>
